@@ -29,8 +29,8 @@ add('C14', 'product program with all header options symbolic + z3', 'For all 16 
 add('C15', 'two implementation runs (default vs symbolic options) on shared symbolic bytes + z3', 'Default-accepted inputs give the identical result under all 128 configurations (reason modulo the documented strip); other-kind options never change any outcome.', COMMON_NOTE)
 add('C16', 'pairwise products of entry points on shared symbolic inputs', 'All entry-point flavours return equal status, fields and headers; parse_headers agrees with the header part of messages.', COMMON_NOTE)
 add('C17', 'symbolic execution with a cell-level header-array model (sentinel / uninit) + capacity-pair products', 'Count, untouched slots, restore-on-failure, no uninit exposure on every path; capacity law by comparing capacity c with 3.', COMMON_NOTE)
-add('C18', 'one inductive step from an arbitrary pre-state (opaque fields and slots) vs a fresh value', 'Status always equal, Complete results equal and free of pre-state values; histories of any length follow from the arbitrary pre-state plus C17\'s invariant re-establishment.', COMMON_NOTE)
-add('C19', 'path-sensitive callee whitelist under symbolic execution (+ no_std build matrix as a build fact)', 'No explored path of any entry point reaches an allocator-family callee; the no_std build matrix (16 switch combinations) builds. The build half is exercised, not solver-decided.', COMMON_NOTE)
+add('C18', 'one inductive step from an arbitrary pre-state (opaque fields and slots) vs a fresh value, plus two-step same-memory loops (arbitrary pre-state, parse of a prefix of the probe buffer, probe) under symbolic execution of MIR + z3', 'Status always equal, Complete results equal and free of pre-state values; histories of any length follow from the arbitrary pre-state plus C17\'s invariant re-establishment.', COMMON_NOTE)
+add('C19', 'path-sensitive callee whitelist under symbolic execution of MIR + z3, process environment as a nondeterministic stub (+ no_std build matrix as a build fact)', 'No explored path of any entry point reaches an allocator-family callee; the no_std build matrix (16 switch combinations) builds. The build half is exercised, not solver-decided.', COMMON_NOTE)
 add('C20', 'engine counters (cursor travel, per-byte loads, MIR steps) on every symbolic path + doubling criterion on adversarial families', 'Cursor travel equals the consumed length (exact) and per-byte loads are bounded on every path; doubling an adversarial input at most doubles reads and steps.', COMMON_NOTE + ' Wall-clock time is not measured by the check itself.')
 
 checks = []
